@@ -111,7 +111,7 @@ func journalExtra(seed uint64, mode jmode, pad bool, storePct int) func(a *h.Asm
 				a.MstoreName(memJ, []byte("s"))
 				jop(a, mode, pad, h.RSVJNAL, h.U(memJ), h.U(22), jTypStr)
 				if !n.Static && r.Chance(storePct) {
-					content := [][]byte{[]byte("ab"), {0, 0x61}, bytes.Repeat([]byte{0x62}, 33), []byte("ab")}[r.Intn(4)]
+					content := [][]byte{[]byte("ab"), {0, 0x61}, bytes.Repeat([]byte{0x62}, 33), []byte("ab"), bytes.Repeat([]byte{0x63, 0x64, 0x65}, 15), append(bytes.Repeat([]byte{0x66}, 32), byte(n.ID))}[r.Intn(6)]
 					enc := sollayout.EncodeString(h.U(22).Bytes32(), content)
 					keys := make([][32]byte, 0, len(enc))
 					for kk := range enc {
